@@ -1,6 +1,6 @@
 (* C06 -- standardisation is canonical, idempotent and meaning-preserving. *)
 From Curies.model Require Import Str PyData Trie Conv Query Val Answer Spec CheckQ.
-From Curies.proofs Require Import StrFacts IndexFacts QueryFacts LawFacts.
+From Curies.proofs Require Import StrFacts IndexFacts QueryFacts LawFacts CheckFacts PModelFacts.
 
 Theorem C06_answers : forall d rs c, mk_conv true d rs = Val c -> forall q, sel_C06 q = true -> answer c q = spec_answer rs d q.
 Proof. intros d rs c Hc q Hq. apply (answer_spec d rs c Hc). destruct q; simpl in *; auto; discriminate. Qed.
@@ -48,3 +48,8 @@ Example C06_uri_idem_needs_prefix_free :
     compress c [103;47;121;49]%N false false = Val (Some [97;58;121;49]%N) /\
     compress c [104;47;120;121;49]%N false false = Val (Some [98;58;49]%N).
 Proof. eexists. split; [vm_compute; reflexivity|]. vm_compute. auto. Qed.
+
+(* the executable predicate P_C06 accepts the model's own answers on every valid case *)
+Theorem C06_P_model : forall k, valid_q k = true -> eval_P 6 k (model_qobs k) = 1%Z.
+Proof. exact PModelFacts.P_C06_model. Qed.
+Print Assumptions C06_P_model.
